@@ -934,6 +934,17 @@ class SymExec:
                 return ('const', b[1][i[1]])
             except Exception:
                 pass
+        # dispatch table kept at module level:  _OPS = {'+=': operator.iadd, ...};  _OPS[op]
+        if isinstance(b, tuple) and b[:2] == ('ref', 'modvar') and is_const(i):
+            mod, _, var = b[2].rpartition('.')
+            m = self.facts.modules.get(mod)
+            vals = m.assigns.get(var) if m else None
+            if vals and len(vals) == 1 and isinstance(vals[0], ast.Dict):
+                for k, v in zip(vals[0].keys, vals[0].values):
+                    if isinstance(k, ast.Constant) and k.value == i[1] and not isinstance(v, ast.Lambda):
+                        r = self.facts.resolve_expr(m, v)
+                        if r[0] != 'unbound':
+                            return self.ref(r)
         self.emit('load_sub', node, obj=b, index=i, handlers=self._handlers())
         return ('sub', freeze(b), freeze(i))
 
@@ -1391,6 +1402,12 @@ class SymExec:
             cmps = {'eq': '==', 'ne': '!=', 'lt': '<', 'le': '<=', 'gt': '>', 'ge': '>=', 'is_': 'is', 'is_not': 'is not'}
             if name in binops and len(args) == 2:
                 return self.binop(binops[name], args[0], args[1], node)
+            inplace = {'iadd': '+', 'isub': '-', 'imul': '*', 'itruediv': '/', 'ifloordiv': '//', 'imod': '%', 'ipow': '**',
+                       'iconcat': '+', 'ior': '|', 'iand': '&', 'ixor': '^', 'ilshift': '<<', 'irshift': '>>'}
+            if name in inplace and len(args) == 2:
+                # operator.iadd(a, b) is `a += b`: may update `a` in place, returns the result
+                self.emit('inplace_op', node, op=inplace[name], target=args[0], value=args[1])
+                return self.binop(inplace[name], args[0], args[1], node)
             if name in cmps and len(args) == 2:
                 return self.compare(cmps[name], args[0], args[1], node)
             if name == 'contains' and len(args) == 2:
